@@ -181,6 +181,8 @@ class ResolutionContext:
         try:
             return cache[key]
         except KeyError:
+            # `__schema` / `__type` only exist on the query root type.
+            field_def = None  # type: Optional[Field]
             if name in ("__schema", "__type", "__typename"):
                 is_query_type = self.schema.query_type is parent_type
                 if self._disable_introspection:
